@@ -308,6 +308,13 @@ func runSpec(path string) {
 		fmt.Fprintln(os.Stderr, "wfrun:", err)
 		os.Exit(64)
 	}
+	for it := 1; it < s.Run.Repeat; it++ {
+		wfi, _ := buildWorkflow(s)
+		wfi.Run()
+		if it%500 == 0 {
+			os.Stdout.WriteString(fmt.Sprintf("\nITERATIONS-DONE %d\n", it))
+		}
+	}
 	wf, nodes := buildWorkflow(s)
 	switch s.Run.Mode {
 	case "", "run":
